@@ -106,10 +106,11 @@ def optimal(
         iitem: [model.add_var(var_type=mip.INTEGER) for ibin in ibins] 
         for iitem in iitems
     }  # counts[i][j] is a variable that represents how many times item i appears in bin j.
-    bin_sums = [
-        sum([counts[iitem][ibin] * binner.valueof(items[iitem]) for iitem in iitems])/weights[ibin] 
+    raw_sums = [
+        sum([counts[iitem][ibin] * binner.valueof(items[iitem]) for iitem in iitems])
         for ibin in ibins
-    ]  # bin_sums[j] is a variable-expression that represents the sum of values in bin j.
+    ]  # raw_sums[j] is a variable-expression that represents the sum of values in bin j.
+    bin_sums = [raw_sums[ibin]/weights[ibin] for ibin in ibins]  # the sums divided by the weights: the objective and the order of the bins refer to them.
 
     model.objective = mip.minimize(
         objective.value_to_minimize(bin_sums, are_sums_in_ascending_order=True)        
@@ -123,7 +124,7 @@ def optimal(
     bin_sums_in_ascending_order = [  # a symmetry-breaker
         bin_sums[ibin + 1] >= bin_sums[ibin] for ibin in range(numbins - 1)
     ]
-    constraints = counts_are_non_negative + each_item_in_one_bin + bin_sums_in_ascending_order + additional_constraints(bin_sums)
+    constraints = counts_are_non_negative + each_item_in_one_bin + bin_sums_in_ascending_order + additional_constraints(raw_sums)  # the caller's constraints are on the sums themselves, as documented; the weights only affect the objective.
     for constraint in constraints: model += constraint
 
     # Solve the ILP:
